@@ -610,3 +610,14 @@ package scanner
 //@   ensures normal && c == '}' ==> result == scanContinue && len(s.finds) == old(len(s.finds)) + 1 && s.finds[old(len(s.finds))] == lexeme.ObjectEnd
 //@   ensures normal && c != '}' ==> len(s.finds) == old(len(s.finds)) + 1 && s.finds[old(len(s.finds))] == lexeme.ObjectKeyBegin
 //@   ensures normal && c == '"' ==> result == scanBeginLiteral && s.step == stateInString
+
+// `[` may be followed by `]` at once; an item there sets the "array has an item" flag
+// (which later decides whether an annotation may follow the closing bracket)
+//@ func stateBeginArrayItemOrEmpty(s, c)
+//@   props C06 C13
+//@   requires s != nil && s.returnToStep != nil && s.stack != nil && s.prevContextsStack != nil && 1 <= s.index && s.index <= len(s.data)
+//@   maypanic
+//@   modifies s.step, s.finds, s.finds[*], s.unfinishedLiteral, s.returnToStep.vals, s.returnToStep.vals[*], s.allowAnnotation, s.context.Type, s.context.ArrayHasItem, s.prevContextsStack.vals
+//@   ensures normal && c == ']' ==> result == scanContinue && len(s.finds) == old(len(s.finds)) + 1 && s.finds[old(len(s.finds))] == lexeme.ArrayEnd
+//@   ensures normal && c != ']' && s.annotation == annotationNone && old(len(s.prevContextsStack.vals)) == len(s.prevContextsStack.vals) ==> s.context.ArrayHasItem
+//@   ensures panics ==> typeis(pv, errors.DocumentError) || old(len(s.prevContextsStack.vals)) == 0
